@@ -22,12 +22,12 @@ fuzz_target!(|data: &[u8]| {
     let mut h = khttp::Headers::new_nodate();
     for (i, op) in ops.iter().enumerate() {
         let (kind, nc, vlen, shape) = match op {
-            HOp::Add(n, v) => { h.add(n.as_str(), v.as_slice()); (0u64, name_class(n), v.len().min(64) as u64, value_shape(v)) }
-            HOp::Rep(n, v) => { h.replace(n.as_str(), v.as_slice()); (1, name_class(n), v.len().min(64) as u64, value_shape(v)) }
-            HOp::Rm(n) => { h.remove(n.as_str()); (2, name_class(n), 0, 0) }
-            HOp::Scl(n) => { h.set_content_length(*n); (3, 1, digits(*n), 0) }
-            HOp::Ste => { h.set_transfer_encoding_chunked(); (4, 2, 0, 0) }
-            HOp::Scc => { h.set_connection_close(); (5, 3, 0, 0) }
+            HOp::Add(n, v) => { let _ = h.add(n.as_str(), v.as_slice()); (0u64, name_class(n), v.len().min(64) as u64, value_shape(v)) }
+            HOp::Rep(n, v) => { let _ = h.replace(n.as_str(), v.as_slice()); (1, name_class(n), v.len().min(64) as u64, value_shape(v)) }
+            HOp::Rm(n) => { let _ = h.remove(n.as_str()); (2, name_class(n), 0, 0) }
+            HOp::Scl(n) => { let _ = h.set_content_length(*n); (3, 1, digits(*n), 0) }
+            HOp::Ste => { let _ = h.set_transfer_encoding_chunked(); (4, 2, 0, 0) }
+            HOp::Scc => { let _ = h.set_connection_close(); (5, 3, 0, 0) }
         };
         // what this operation did to the derived answers, by the shape of what was stored
         let vb = if nc == 1 { vlen } else { match vlen { 0 => 0, 1..=7 => 1, 8..=15 => 2, _ => 3 } };
